@@ -54,6 +54,16 @@ Definition rsplit_by_len (W s e b : N) : res (list (N * N)) :=
   if W <=? s then Panic else
   Ok (map (fun k => (N.max (e - k * b - b) s, e - k * b)) (nrange (div_ceil (e - s) b))).
 
+(* the first k pieces only (what `.take(k)` delivers): the iterators are lazy, so a record with astronomically many
+   pieces still hands out its first ones; same closed form, restricted to the first min(k, #pieces) indices *)
+Definition split_head (s e b k : N) : res (list (N * N)) :=
+  if b =? 0 then Panic else
+  Ok (map (fun i => (s + i * b, N.min (s + i * b + b) e)) (nrange (N.min k (div_ceil (e - s) b)))).
+Definition rsplit_head (W s e b k : N) : res (list (N * N)) :=
+  if b =? 0 then Panic else
+  if W <=? s then Panic else
+  Ok (map (fun i => (N.max (e - i * b - b) s, e - i * b)) (nrange (N.min k (div_ceil (e - s) b)))).
+
 (* ---- MergeBed::next folded over the whole input: groups in order; Panic on unsorted input ---- *)
 Fixpoint merge_loop (chr : bytes) (s e : N) (acc : list brec) (l : list brec) : res (list (list brec)) :=
   match l with
